@@ -4,6 +4,7 @@ import (
 	"fmt"
 	"math"
 	"reflect"
+	"regexp"
 	"sort"
 	"strconv"
 	"strings"
@@ -141,7 +142,7 @@ var c04SharedDecls = []string{
 	"background-image:none, repeating-linear-gradient(to right, red, blue 2U)", "background-position:1U 2U", "background-position:right 1U bottom 2U, 3U 0", "background-size:1U 2U", "background-size:auto, 2U",
 	"border-spacing:1U 2U", "border-top-left-radius:1U 2U", "clip:rect(1U, 2U, 3U, 4U)", "transform:translate(1U, 2U)", "transform:rotate(10deg) translateX(2U)", "transform-origin:1U 2U", "object-position:1U 2U",
 	"margin-left:2U", "width:3U", "text-indent:2U", "letter-spacing:1U", "word-spacing:1U", "line-height:2U", "vertical-align:1U", "column-gap:2U", "row-gap:1U", "column-width:5U", "flex-basis:3U", "min-height:2U", "max-width:9U",
-	"outline-width:1U", "outline-offset:1U", "border-left-width:1U;border-left-style:solid", "top:1U", "grid-template-columns:1U 2U", "grid-auto-rows:2U", "grid-template-rows:minmax(1U, 3U) 2U", "tab-size:2U", "hyphenate-limit-zone:2U",
+	"outline-width:1U", "outline-offset:1U", "border-left-width:1U;border-left-style:solid", "top:1U", "grid-template-columns:1U 2U", "grid-auto-rows:2U", "border-image-outset:1U 2U", "grid-auto-columns:minmax(1U, 2U)", "grid-template-rows:minmax(1U, 3U) 2U", "tab-size:2U", "hyphenate-limit-zone:2U",
 	"bleed-left:1U", "marks:none;margin-top:1U", "padding-bottom:calc(1U)", "text-decoration-thickness:1U", "text-underline-offset:1U", "image-resolution:1dppx;height:2U",
 }
 
@@ -547,7 +548,53 @@ func c04Shared(c *C04Case) Verdict {
 			}
 		}
 	}
+	// em and rem lengths mean the same as the px lengths they stand for (1em = the font size of the element,
+	// 1rem = the 16px of the root here), wherever in a value they occur
+	if c.Unit == "em" || c.Unit == "rem" {
+		for _, fs := range c.Sizes {
+			if !strings.HasSuffix(fs, "px") {
+				continue
+			}
+			factor, _ := strconv.ParseFloat(strings.TrimSuffix(fs, "px"), 64)
+			if c.Unit == "rem" {
+				factor = 16
+			}
+			inPx := c04UnitRe(c.Unit).ReplaceAllStringFunc(c.Doc, func(m string) string {
+				n, _ := strconv.ParseFloat(strings.TrimSuffix(m, c.Unit), 64)
+				return strconv.FormatFloat(n*factor, 'f', -1, 64) + "px"
+			})
+			var vals [2][]string
+			for k, decl := range []string{c.Doc, inPx} {
+				one := `<!DOCTYPE html><html><head></head><body style="font-family:Ahem"><x-el id="e" style="font-size:` + fs + `;` + decl + `"></x-el></body></html>`
+				_, sf3, byID3, err := c04Styles(one)
+				if err != nil {
+					return Verdict{Excluded: "html-rejected", Labels: labels}
+				}
+				for _, n := range names {
+					vals[k] = append(vals[k], fmt.Sprintf("%v", c04Value(sf3, byID3["e"], n)))
+				}
+			}
+			for k, n := range names {
+				if vals[0][k] != vals[1][k] {
+					return Viol("shared:unit-equivalence:"+n, "at font-size %s, %q computes %s to %s but the same lengths in px (%q) give %s", fs, c.Doc, n, vals[0][k], inPx, vals[1][k])
+				}
+			}
+			labels = append(labels, "unit-equivalence")
+			break
+		}
+	}
 	return Verdict{NonTrivial: len(distinct) > len(names), Labels: labels}
+}
+
+var c04UnitRes = map[string]*regexp.Regexp{}
+
+func c04UnitRe(unit string) *regexp.Regexp {
+	if re, ok := c04UnitRes[unit]; ok {
+		return re
+	}
+	re := regexp.MustCompile(`[0-9]+(?:\.[0-9]+)?` + unit + `\b`)
+	c04UnitRes[unit] = re
+	return re
 }
 
 func c04AllProps(c *C04Case) Verdict {
